@@ -29,6 +29,10 @@ def run(ctx):
     ctx.rule("C06.R6", "K4/K3", "(= C13.R7) a pool thread of the threaded worker always reads from a blocking socket: a request that arrives in several segments is waited for, whichever request of the connection it is")
     from .c13 import blocking_mode
     blocking_mode(ctx, "C06.R6")
+    # the header-block buffer cap only bites when the block is not complete after a read: computed from the effective limits
+    # it never rejects a block that one more read completes into an accepted one (the clamp table of C12.R1 under C06.R5)
+    from .c12 import clamps
+    clamps(ctx, "C06.R5")
 
 
 # ---------------------------------------------------------------------------- helpers
